@@ -23,7 +23,21 @@ import vlib
 from gens import kin
 
 HARNESS_TIMEOUT = 180
-KEY_STALE = "cvode-restart-stale-y"
+
+# minimised past disagreements, always replayed first.  Both showed, before /repo commit 0450d481, a CVODE re-start that
+# continued from the state of a rejected attempt paired with the time of the last good step (result at T off by up to
+# 4196 x tol depending on -cvode_steps).
+CORPUS = [
+    {"problem": {"kind": "first", "p": {"m0": 0.0004376945293302126, "k": 0.0058141165059866886}},
+     "config": {"T": 419.4388976595506, "tol": 6.935194474680307e-08,
+                "division": ["list", [28.442288466879507, 124.39999645352546, 250.94387366349355, 360.36090289919844,
+                                      361.47440331065616, 419.4388976595506]],
+                "incremental": False, "integ": {"cvode": True, "cvode_steps": 8, "cvode_order": 2, "bad_step_max": 500}}},
+    {"problem": {"kind": "chainsol", "p": {"a0": 0.004444365771323291, "k1": 0.002759223287931278, "k2": 0.002190056894443316,
+                                           "c0": 0.0, "x0": 0.0013333097313969874}},
+     "config": {"T": 2572.640724708004, "tol": 1.7118864534361387e-09, "division": ["equal", 1], "incremental": True,
+                "integ": {"cvode": True, "cvode_steps": 30, "cvode_order": 5, "bad_step_max": 1000}}},
+]
 
 
 def hexs(s):
@@ -268,6 +282,11 @@ def analyse(prob, cfg, r):
                     if pred > 0 and mj > 0 and abs(mj - pred) > bound:
                         out["stale"].append({"step": step, "restart": j, "accounted_time": S, "amount": mj, "amount_at_accounted_time": pred,
                                              "over_bound": abs(mj - pred) / bound})
+                        if not stale_seen:
+                            out["problems"].append(("restart-state", f"step {step}: CVODE re-start {j} continues from a state that is not the "
+                                                    f"state at the accounted time: after {S!r} s the clock reactant A should hold {pred!r} mol "
+                                                    f"but the re-start begins with {mj!r} mol ({abs(mj - pred) / tol:.3g} x tol, allowed "
+                                                    f"{bound / tol:.3g} x tol)"))
                         stale_seen = True
                         m0_clock = mj / (pred / m0_clock) if pred else m0_clock   # re-base the clock on the stale state
                 mR = segs[R][0][1]
@@ -279,18 +298,15 @@ def analyse(prob, cfg, r):
                                             f"should leave {pred_end!r} mol of A (integrating the remaining {remaining!r} s from {mR!r}) but {got!r} "
                                             f"is reported ({abs(got - pred_end) / tol:.3g} x tol, allowed {bound / tol:.3g} x tol)"))
         # ---- closed form
-        if not stale_seen:
-            ex = prob.exact(t_end)
-            for nm, v in ex.items():
-                got = row[col["m_" + nm]] if not nm.startswith("sol:") else row[col[nm[4:]]]
-                ratio = abs(got - v) / bound
-                out["ratio"] = max(out["ratio"], ratio)
-                if ratio > 1.0:
-                    out["problems"].append(("closed-form", f"step {step} (t = {t_end!r}): {nm} = {got!r}, exact solution {v!r}: "
-                                            f"difference {abs(got - v) / tol:.4g} x tol, allowed {bound / tol:.4g} x tol "
-                                            f"({cum_evals} rate evaluations)"))
-    if stale_seen:
-        out["status"] = "stale"
+        ex = prob.exact(t_end)
+        for nm, v in ex.items():
+            got = row[col["m_" + nm]] if not nm.startswith("sol:") else row[col[nm[4:]]]
+            ratio = abs(got - v) / bound
+            out["ratio"] = max(out["ratio"], ratio)
+            if ratio > 1.0:
+                out["problems"].append(("closed-form", f"step {step} (t = {t_end!r}): {nm} = {got!r}, exact solution {v!r}: "
+                                        f"difference {abs(got - v) / tol:.4g} x tol, allowed {bound / tol:.4g} x tol "
+                                        f"({cum_evals} rate evaluations)"))
     return out
 
 
@@ -345,7 +361,7 @@ def lib_analyse(name, cfgs, results):
             continue
         nA = sum(1 for a in r["trace"] if a[2] == "A")
         last = r["rows"][-1]
-        # a stale CVODE restart (known finding) would show on the clock: exclude such a run
+        # the clock reactant (first-order decay next to the library rate) has a closed form: judged like the families
         kc = 1.5 / LIB[name]["T"]
         bound = math.sqrt(2) * c["tol"] * max(100.0, float(nA))
         clock_ok = abs(last[3] - 1e-3 * math.exp(-kc * c["T"])) <= bound
@@ -355,10 +371,9 @@ def lib_analyse(name, cfgs, results):
         if vals[i][5] < 0:
             probs.append(f"{name}: negative amount {vals[i][5]!r}")
         if not vals[i][4]:
-            continue
+            probs.append(f"{name} run with {vals[i][0]['integ']}: the first-order clock reactant holds {vals[i][2]!r} mol at T, exact "
+                         f"{1e-3 * math.exp(-1.5)!r} (allowed difference {vals[i][3]!r})")
         for j in range(i + 1, len(vals)):
-            if not vals[j][4]:
-                continue
             ncmp += 1
             d = abs(vals[i][1] - vals[j][1])
             lim = vals[i][3] + vals[j][3]
@@ -410,10 +425,10 @@ def run(ctx):
     ctx.build_lib()
     exe = ctx.build_harness("ph_kin")
     rng = ctx.rng
-    n_poly = ctx.n(48, 1500)
-    n_closed = ctx.n(40, 500)
-    n_cur = ctx.n(300, 5000)
-    n_lib = ctx.n(1, 6)
+    n_poly = ctx.n(160, 2400)
+    n_closed = ctx.n(120, 1200)
+    n_cur = ctx.n(400, 6000)
+    n_lib = ctx.n(2, 10)
     if not ok:
         n_poly, n_closed = max(n_poly, 300), max(n_closed, 200)
     evals = 0
@@ -422,6 +437,18 @@ def run(ctx):
 
     def bump(k, v=1):
         hist[k] = hist.get(k, 0) + v
+
+    # ---- corpus: minimised past disagreements are replayed first ------------------------------------------------
+    for item in CORPUS:
+        prob = kin.Problem.from_json(item["problem"])
+        cfg = json.loads(json.dumps(item["config"]))
+        cfg["division"] = tuple(cfg["division"])
+        o = closed_case(exe, prob, [cfg])[0]
+        evals += 1
+        bump("corpus")
+        if o["problems"]:
+            ctx.violation(f"corpus case fails again — {o['problems'][0][0]}: {o['problems'][0][1]}",
+                          {"kind": "closed", "problem": item["problem"], "config": item["config"]})
 
     # ---- (3) Current_step ---------------------------------------------------------------------------------------
     ops = [gen_curstep(rng) for _ in range(n_cur)]
@@ -480,7 +507,6 @@ def run(ctx):
     with cf.ThreadPoolExecutor(vlib.NCPU) as ex:
         analysed = list(ex.map(lambda pc: closed_case(exe, pc[0], pc[1]), cases))
     worst_ratio, worst_bal, n_restart_runs, n_judged, n_stale = 0.0, 0.0, 0, 0, 0
-    stale_best = None
     for (prob, cfgs), outs in zip(cases, analysed):
         for cfg, o in zip(cfgs, outs):
             evals += 1
@@ -505,22 +531,12 @@ def run(ctx):
                     bump("runs with >= 2 CVODE restarts")
             if o["stale"]:
                 n_stale += 1
-                key = (0 if prob.kind == "first" else 1, kin.nsteps(cfg), o["restarts"])
-                if stale_best is None or key < stale_best[0]:
-                    stale_best = (key, prob, cfg, o["stale"][0])
             if len(ctx.cov["samples"]) < 3 and o["status"] == "ok" and o["ratio"] > 0:
                 ctx.sample({"closed": prob.kind, "integ": ig, "division": cfg["division"][0], "incremental": cfg["incremental"],
                             "worst |m - exact| / allowed": o["ratio"], "restarts": o["restarts"]})
             for kind_, text in o["problems"][:1]:
                 if len(ctx.violations) < 3:
                     ctx.violation(f"{kind_}: {text}", {"kind": "closed", "problem": prob.to_json(), "config": cfg})
-    if stale_best is not None:
-        _, prob, cfg, st = stale_best
-        ctx.finding(KEY_STALE,
-                    f"CVODE re-start continues from a state that is not the state at the accounted time: after {st['accounted_time']!r} s the clock "
-                    f"reactant should hold {st['amount_at_accounted_time']!r} mol but the re-start begins with {st['amount']!r} mol "
-                    f"({st['over_bound']:.3g} x the allowed difference); the result at T then depends on -cvode_steps",
-                    {"kind": "closed", "problem": prob.to_json(), "config": cfg})
     # ---- shipped rate library --------------------------------------------------------------------------------------
     lib_worst, lib_cmp = 0.0, 0
     lib_jobs = []
@@ -551,7 +567,7 @@ def run(ctx):
     ctx.cov["input_distribution"] = dict(sorted(hist.items()))
     ctx.cov["closed_form"] = {"runs_judged": n_judged, "worst |m - exact| / allowed": worst_ratio,
                               "worst balance residual / inventory": worst_bal, "runs_with_cvode_restarts": n_restart_runs,
-                              "runs_excluded_stale_restart": n_stale}
+                              "runs_with_inconsistent_restart_state": n_stale}
     ctx.cov["library"] = {"pairs_compared": lib_cmp, "worst difference / allowed": lib_worst}
     ctx.cov["rule"] = ("poly: random RATES polynomial in TOTAL_TIME and M (1-3 coupled reactants), -runge_kutta 0..9, -step_divide <1, =1, >1, "
                        "-bad_step_max 5..500 through real KINETICS; every RATES evaluation (TOTAL_TIME, M, TIME, moles) compared with `pmodel rk` "
@@ -582,8 +598,6 @@ def replay(ctx, data):
             print("replay stale re-start:", s)
         if o["problems"]:
             ctx.violation("replayed case still fails: " + o["problems"][0][1], data)
-        elif o["stale"]:
-            ctx.finding(KEY_STALE, "replayed case still shows a stale CVODE re-start", data)
     elif kind_ == "poly":
         spec = data["spec"]
         gen_rk.generate(ctx)
@@ -622,12 +636,13 @@ MANIFEST = dict(
          "weights order 4 and not 5, error weights = the source's initialisers and sum to 0, early-exit weights of -runge_kutta 1/2/3 sum to 1 "
          "and are exactly first order, step-control constants in range; consequences for all inputs over Rat — constant rate integrated "
          "exactly with error estimate 0 for every step division, polynomial-in-time rates to degree 4 integrated exactly (degree 5 not), "
-         "stability polynomial of first-order decay; on the loop model for every rate function / pow / tolerance / option — error_gate "
+         "stability polynomial of first-order decay, early exits within 0.7/3.5 tol of the Euler amount; on the loop model for every rate function / pow / tolerance / option — error_gate "
          "(accepted iff scaled estimate <= 1), accepted_steps_cover_T (normal exit: accepted sub-steps sum to kin_time exactly), stage and "
          "final amounts never negative; time — incremental_times_sum, cumulative last step = T, list steps; restart_covers_T for the CVODE "
          "restart statements read from run_reactions. Correspondence: every RATES evaluation of real rk_kinetics vs the Float model "
          "(bit patterns), Current_step direct. Obligation over generated data: closed-form families, balance, non-negativity, time columns, "
-         "restart accounting, rate library on real runs.",
+         "restart accounting and restart state (from the callback trace), rate library on real runs; corpus of two minimised past "
+         "disagreements (CVODE restart from a rejected attempt's state, fixed in /repo 0450d481) replayed first.",
     note="Trusted: gen_rk.py (regex + exact rational evaluator; fails closed), harness/ph_kin.cpp (BASIC callback trace, friend access), "
          "tolerance logic in c12.py. Partial: CVODE (BDF) internals are not modelled — explored only; the chemistry solve between stages is "
          "the model's rate-function parameter (MASS_BALANCE retry path, limit_rates, related exchangers/surfaces not modelled); the early-exit "
